@@ -20,6 +20,7 @@ package main
 
 import (
 	"context"
+	"encoding/json"
 	"fmt"
 	"reflect"
 	"strconv"
@@ -153,6 +154,24 @@ func (q *Quota) UnmarshalJSON(b []byte) error {
 	return jrpc2.Errorf(-32001, "quota exceeded")
 }
 
+// SelfDec decodes itself the usual way (json.Unmarshaler on the pointer: decode into a method-less twin, then
+// copy): for encoding/json it behaves like a plain struct, and the adapters still map array params to its fields
+// before it is asked to decode.  (Field names shared with no other declared type.)
+type SelfDec struct {
+	Sda int    `json:"sda"`
+	Sdb string `json:"sdb"`
+}
+
+func (s *SelfDec) UnmarshalJSON(b []byte) error {
+	type plain SelfDec
+	var p plain
+	if err := json.Unmarshal(b, &p); err != nil {
+		return err
+	}
+	*s = SelfDec(p)
+	return nil
+}
+
 type regEntry struct {
 	typ  reflect.Type
 	node *tnode
@@ -163,7 +182,7 @@ var registryIndex = map[reflect.Type]int{}
 
 func init() {
 	for _, v := range []any{PlainEmb{}, lowerEmb{}, StrictV{}, StrictP{}, PlainN{}, PtrStrictP(nil), PtrPlainN(nil),
-		EmbV{}, EmbP{}, EmbPtr{}, Mixed{}, TaggedEmb{}, StrictInt(0), StrictMap(nil), NamedInt(0), NamedSlice(nil), StrictArr{}, ErrStruct{}, ErrString(""), Quota(nil)} {
+		EmbV{}, EmbP{}, EmbPtr{}, Mixed{}, TaggedEmb{}, StrictInt(0), StrictMap(nil), NamedInt(0), NamedSlice(nil), StrictArr{}, ErrStruct{}, ErrString(""), Quota(nil), SelfDec{}} {
 		t := reflect.TypeOf(v)
 		registryIndex[t] = len(registry)
 		registry = append(registry, regEntry{typ: t})
